@@ -780,6 +780,20 @@ class BadReprMgr(Plain):
         raise ValueError("this manager cannot be described")
 
 
+class KeyErrCallable:
+    def __init__(self):
+        self._data = {}
+
+    def __call__(self, *a):
+        return False
+
+    def __getattr__(self, name):
+        return self._data[name]
+
+    def __repr__(self):
+        return "KeyErrCallable()"
+
+
 def run_badchild(req):
     """an exit stack one of whose registrations cannot be described (its manager's repr raises; a callback argument's repr
     raises): the failure is reported, and every registration - also those made AFTER the failing one - still has its child"""
@@ -795,6 +809,11 @@ def run_badchild(req):
                 elif kind == "badrepr":
                     m = BadReprMgr(i)
                     st.enter_context(m)
+                elif kind == "badattr":
+                    # a callable pushed as an exit function whose attribute lookups fail with something else than
+                    # AttributeError (a dict-backed proxy)
+                    m = KeyErrCallable()
+                    st.push(m)
                 elif kind == "badarg":
                     m = cb_fn
                     st.callback(cb_fn, BadReprMgr(i))
